@@ -805,6 +805,15 @@ class Spectrum:
             Unit to convert to, as accepted by :func:`Unit`.
 
         """
+        # every requested unit is checked before anything is converted (a call that
+        # raises leaves the spectrum as it was)
+        for unit in args:
+            if unit.lower() in ['photlam', 'flam', 'wlam']:
+                if self.valueunit is None:
+                    raise TypeError("Can't convert from None valueunit to " + unit)
+            elif unit.lower() not in ['m', 'meter', 'um', 'micron', 'nm', 'nanometer', 'angstrom']:
+                raise ValueError('Unknown unit')
+
         for unit in args:
 
             # the arithmetic of a conversion is done in double precision, not in
